@@ -470,7 +470,9 @@ def preExit (cfg : Cfg) (e : PreExit) (src : Src) : Out :=
 def parseFormatPre (cfg : Cfg) (s : St) (src : Src) : Out :=
   let f := cfg.fmt
   match nextvis f s src with
-  | (none, s1, src1) => if s1.path.elems.isEmpty then (0, s1, src1) else err .MissingData s1 src1
+  | (none, s1, src1) =>
+    if cfg.eof != -2 then err .BadArgument s1 src1
+    else if s1.path.elems.isEmpty then (0, s1, src1) else err .MissingData s1 src1
   | (some c, s1, src1) =>
     if c == f.sstart then
       let s2 := { s1 with curr := Flag.section_ }
@@ -537,7 +539,8 @@ def parseFormatEnc (cfg : Cfg) (prev : Nat) (s : St) (src : Src) : Out :=
     if prev == Flag.sectEnd then encSection cfg s src
     else
       match nextvis f s src with
-      | (none, s1, src1) => (0, { s1 with curr := 0 }, src1)
+      | (none, s1, src1) =>
+        if cfg.eof != -2 then err .BadArgument { s1 with curr := 0 } src1 else (0, { s1 with curr := 0 }, src1)
       | (some c, s1, src1) =>
         if !s1.path.elems.isEmpty && c == f.sstart then (Flag.sectEnd, { s1 with curr := Flag.sectEnd }, src1)
         else if c != f.sstart then encOption cfg s1 c src1
